@@ -8,9 +8,6 @@ VERIF = os.path.dirname(os.path.dirname(os.path.abspath(__file__)))
 sys.path.insert(0, VERIF)
 from worlds import PROPERTY_WORLD  # noqa: E402
 
-LEVEL_TEXT = {}
-for line in open(os.path.join(VERIF, "tools", "levels.json")):
-    pass
 TABLE = json.load(open(os.path.join(VERIF, "tools", "levels.json")))
 
 ALL = [f"C{n:02d}" for n in range(1, 21)]
